@@ -484,9 +484,27 @@ pub fn run(rep: &Report) {
     ins_plane(rep, if thorough { 4000 } else { 60 }, false, rep.seed ^ 0xABCD);
     source_plane(rep, if thorough { 400 } else { 10 }, false, rep.seed ^ 0x1234);
     crate::insplane::history_plane(rep, if thorough { 40_000 } else { 600 }, 120, rep.seed ^ 0x41, false, "C01 lock-step history", "ins", &|rng| {
-        let opk = rng.below(5);
-        let form = rng.below(ALU2_FORMS);
-        arith_ins(rng, form, opk)
+        // the whole ADD..NEG family in every operand form, between neighbours that share the grammar's unary
+        // rules (MUL/DIV in register and memory forms), flag setters and register loads
+        let bl: Vec<&str> = BLABELS.iter().map(|x| x.0).collect();
+        let wl: Vec<&str> = WLABELS.iter().map(|x| x.0).collect();
+        match rng.below(10) {
+            0 | 1 | 2 | 3 | 4 | 5 => {
+                let opk = rng.below(8);
+                let form = rng.below(if opk < 5 { ALU2_FORMS } else { UN_FORMS });
+                arith_ins(rng, form, opk)
+            }
+            6 | 7 => {
+                let op = *rng.pick(&[Un::Mul, Un::Imul, Un::Div, Un::Idiv]);
+                let mut loc = crate::gen::un_form(rng.below(UN_FORMS), rng, &bl, &wl);
+                if op == Un::Imul && loc.width() == W::B {
+                    loc = Loc::R16(crate::gen::rand_r16(rng));
+                }
+                Ins::Un(op, loc)
+            }
+            8 => Ins::Simple(*rng.pick(&["stc", "clc", "cmc"])),
+            _ => Ins::Mov(Loc::R16(crate::gen::rand_r16(rng)), Src::Imm(rng.hostile16())),
+        }
     });
     crate::insplane::edge_plane(rep, if thorough { 400_000 } else { 6000 }, rep.seed ^ 0xE1, false, "C01 at the end of memory", "ins", &|rng| {
         let opk = rng.below(8);
